@@ -41,3 +41,11 @@ CHECKS["C05"] = dict(
     design_ref="DESIGN.md section 3 C05",
     note="Grid truth is parsed from the stored zarr.json (regular and rectilinear), independent of cubed's bookkeeping. Sharded targets are exempt from the no-prior-read clause (zarr reads edge shards itself). Racing writers are not simulated; the single-writer invariant is what excludes races.",
 )
+
+CHECKS["C06"] = dict(
+    level="exploration",
+    technique="property-based schedule sampling: the same plan is executed under a reference schedule and under generated schedules (task permutations, duplicated executions at three timings, cloudpickle round trip, fresh interpreter per task) and the complete store contents are compared byte for byte",
+    text="The harness owns the schedule through a DagExecutor that calls cubed's own task functions: it permutes the tasks of each operation, re-runs drawn tasks immediately / after their operation / after all downstream operations (array-creation tasks included), and runs tasks from their serialized form in-process or in a fresh interpreter. Oracle: every key of the store holds identical bytes to the reference schedule, rewritten keys always carry the same bytes, results are equal; random arrays regenerate identically while distinct blocks/arrays differ.",
+    design_ref="DESIGN.md section 3 C06",
+    note="Duplicates are re-executions of completed tasks (no two writers of one key race). Serialized execution uses a LocalStore directory. Schedules are sampled, not enumerated.",
+)
